@@ -1,6 +1,8 @@
-(** C14 (stretch) — partial soundness of the strip output (Model/Strips.v). *)
-From Coq Require Import List ZArith Bool Arith Lia ZifyNat.
-From Draco Require Import Model.Dedup Model.Cleanup Model.Strips Proofs.Cleanup_proofs.
+(** C14 — the strip clause: the index streams of both MeshStripifier modes decode to the mesh's faces
+    (Model/Strips.v).  First part: one stored strip (local soundness).  Second part: retracing, coverage,
+    separators, the two theorems. *)
+From Coq Require Import List ZArith Bool Arith Lia ZifyNat Permutation.
+From Draco Require Import Model.Dedup Model.Cleanup Model.Strips Proofs.Dedup_proofs Proofs.Cleanup_proofs.
 Import ListNotations.
 
 Ltac Zify.zify_post_hook ::= Z.div_mod_to_equations.
@@ -80,7 +82,7 @@ Section Sound.
         * rewrite next_next, prev_next in *. split; congruence.
   Qed.
 
-  (** THEOREM (partial) strips_store_sound_partial: if every edge crossed by StoreStrip's walk passes the seam
+  (** one stored strip: if every edge crossed by StoreStrip's walk passes the seam
       test, the strip it emits decodes (alternating winding) to exactly the faces it visits, in order, each up
       to a rotation of its corners — orientation preserved. *)
   Lemma store_strip_sound n ci vis last out vis' last' cs :
@@ -110,3 +112,677 @@ Section Sound.
       eapply store_tail_sound; eauto. unfold pre. cbn. split; congruence.
   Qed.
 End Sound.
+
+(* ====================================================================== the full strip clause *)
+(* ------------------------------------------------------------------ corner arithmetic *)
+Lemma face_next c : c_face (c_next c) = c_face c.
+Proof. unfold c_face. corner_arith. Qed.
+Lemma face_prev c : c_face (c_prev c) = c_face c.
+Proof. unfold c_face. corner_arith. Qed.
+
+Lemma step_corner_pos i c : 1 <= i -> step_corner i c = if Nat.odd i then c_prev c else c_next c.
+Proof. intros H. unfold step_corner. destruct (Nat.eqb_spec i 0); [lia|reflexivity]. Qed.
+Lemma face_step i c : c_face (step_corner i c) = c_face c.
+Proof. unfold step_corner. destruct (Nat.eqb i 0); auto. destruct (Nat.odd i); [apply face_prev|apply face_next]. Qed.
+Lemma step_corner_parity i j c : 1 <= i -> 1 <= j -> Nat.odd i = Nat.odd j -> step_corner i c = step_corner j c.
+Proof. intros. rewrite !step_corner_pos by auto. rewrite H1. reflexivity. Qed.
+
+(* ------------------------------------------------------------------ visited flags *)
+Fixpoint mark (fs : list nat) (vis : list bool) : list bool :=
+  match fs with [] => vis | f :: r => mark r (upd f true vis) end.
+Definition unvis (vis : list bool) (f : nat) : Prop := nth f vis true = false.
+Definition count_unvis (vis : list bool) : nat := length (filter negb vis).
+
+Lemma unvis_lt vis f : unvis vis f -> f < length vis.
+Proof. unfold unvis. intros H. destruct (Nat.lt_ge_cases f (length vis)); auto. rewrite nth_overflow in H by lia. discriminate. Qed.
+Lemma count_unvis_upd vis f : unvis vis f -> S (count_unvis (upd f true vis)) = count_unvis vis.
+Proof.
+  unfold unvis, count_unvis. revert f. induction vis as [|b r IH]; intros f H; [destruct f; discriminate|].
+  destruct f; cbn in *. { subst b. cbn. reflexivity. }
+  destruct b; cbn; rewrite <- (IH f H); reflexivity.
+Qed.
+Lemma count_unvis_le vis : count_unvis vis <= length vis.
+Proof. unfold count_unvis. induction vis as [|b r IH]; cbn; [lia|]. destruct b; cbn; lia. Qed.
+Lemma mark_length l : forall vis, length (mark l vis) = length vis.
+Proof. induction l; intros; cbn; auto. rewrite IHl, upd_length. reflexivity. Qed.
+Lemma nth_upd_true vis f g : nth g (upd f true vis) true = (Nat.eqb g f || nth g vis true).
+Proof.
+  destruct (Nat.eqb_spec g f); cbn [orb].
+  - subst. destruct (Nat.lt_ge_cases f (length vis)); [apply nth_upd_same; auto|].
+    apply nth_overflow. rewrite upd_length. lia.
+  - apply nth_upd_other; auto.
+Qed.
+Lemma nth_mark l : forall vis g, nth g (mark l vis) true = (existsb (Nat.eqb g) l || nth g vis true).
+Proof.
+  induction l as [|f r IH]; intros; cbn [mark existsb]; auto.
+  rewrite IH, nth_upd_true. destruct (Nat.eqb g f), (existsb (Nat.eqb g) r); reflexivity.
+Qed.
+Lemma existsb_eqb_In g l : existsb (Nat.eqb g) l = true <-> In g l.
+Proof. rewrite existsb_exists. split. { intros (x & H & E). apply Nat.eqb_eq in E. subst; auto. } intros; exists g; split; auto. apply Nat.eqb_refl. Qed.
+Lemma unvis_mark l vis g : unvis (mark l vis) g <-> unvis vis g /\ ~ In g l.
+Proof.
+  unfold unvis. rewrite nth_mark, orb_false_iff. rewrite <- existsb_eqb_In.
+  destruct (existsb (Nat.eqb g) l); intuition congruence.
+Qed.
+
+Lemma exists_last_or_nil {A} (l : list A) : l = [] \/ exists l' a, l = l' ++ [a].
+Proof. destruct l as [|x r]; [left; auto|right]. destruct (@exists_last _ (x :: r)) as (l' & a & E); [discriminate|eauto]. Qed.
+
+(* ------------------------------------------------------------------ decoding lemmas *)
+Lemma decode_parity s : forall i j, Nat.odd i = Nat.odd j -> decode_strip i s = decode_strip j s.
+Proof.
+  induction s as [|a r IH]; intros i j H; [reflexivity|]. cbn [decode_strip].
+  destruct r as [|b [|c r']]; try reflexivity. rewrite H. f_equal. apply IH.
+  rewrite !Nat.odd_succ, <- !Nat.negb_odd. congruence.
+Qed.
+
+Lemma decode_app A : forall j x y B,
+  decode_strip j (A ++ x :: y :: B) = decode_strip j (A ++ [x; y]) ++ decode_strip (j + length A) (x :: y :: B).
+Proof.
+  induction A as [|a A' IH]; intros j x y B.
+  - cbn [app length]. rewrite Nat.add_0_r. reflexivity.
+  - cbn [length]. replace (j + S (length A')) with (S j + length A') by lia.
+    specialize (IH (S j) x y B).
+    destruct A' as [|b [|c A'']]; cbn [app] in *; cbn [decode_strip] in *; rewrite ?IH; reflexivity.
+Qed.
+
+Lemma nondeg_sep2 j x L S T :
+  filter tri_nondeg (decode_strip j (x :: L :: L :: S :: S :: T)) = filter tri_nondeg (decode_strip (4 + j) (S :: T)).
+Proof.
+  destruct T as [|n T]; cbn [decode_strip Nat.add];
+    repeat match goal with |- context [if Nat.odd ?k then _ else _] => destruct (Nat.odd k) end;
+    cbn [filter tri_nondeg]; rewrite ?Nat.eqb_refl; cbn [negb andb]; rewrite ?andb_false_r; reflexivity.
+Qed.
+Lemma nondeg_sep3 j x L S T :
+  filter tri_nondeg (decode_strip j (x :: L :: L :: S :: S :: S :: T)) = filter tri_nondeg (decode_strip (5 + j) (S :: T)).
+Proof.
+  destruct T as [|n T]; cbn [decode_strip Nat.add];
+    repeat match goal with |- context [if Nat.odd ?k then _ else _] => destruct (Nat.odd k) end;
+    cbn [filter tri_nondeg]; rewrite ?Nat.eqb_refl; cbn [negb andb]; rewrite ?andb_false_r; reflexivity.
+Qed.
+
+Lemma rot_equiv_trans f g h : rot_equiv f g -> rot_equiv g h -> rot_equiv f h.
+Proof. destruct f as [[a b] c]. unfold rot_equiv, rot_left. intros [-> | [-> | ->]] [-> | [-> | ->]]; auto. Qed.
+Lemma nondeg_rot f g : rot_equiv f g -> tri_nondeg f = tri_nondeg g.
+Proof.
+  destruct f as [[a b] c]. unfold rot_equiv, rot_left. intros [-> | [-> | ->]]; cbn [tri_nondeg]; auto;
+    destruct (Nat.eqb_spec a b), (Nat.eqb_spec a c), (Nat.eqb_spec b c), (Nat.eqb_spec b a), (Nat.eqb_spec c a), (Nat.eqb_spec c b);
+    cbn; try reflexivity; congruence.
+Qed.
+
+Lemma Forall2_filter {A} (R : A -> A -> Prop) f : (forall a b, R a b -> f a = f b) ->
+  forall l1 l2, Forall2 R l1 l2 -> Forall2 R (filter f l1) (filter f l2).
+Proof.
+  intros Hf l1 l2 H. induction H as [|a b l1 l2 Hab H IH]; cbn [filter]; [constructor|].
+  rewrite (Hf a b Hab). destruct (f b); auto.
+Qed.
+Lemma Forall2_trans {A} (R : A -> A -> Prop) : (forall a b c, R a b -> R b c -> R a c) ->
+  forall l1 l2 l3, Forall2 R l1 l2 -> Forall2 R l2 l3 -> Forall2 R l1 l3.
+Proof.
+  intros Ht l1 l2 l3 H. revert l3. induction H; intros l3 H3; inversion H3; subst; constructor; eauto.
+Qed.
+Lemma Forall2_map_pointwise {A B} (R : B -> B -> Prop) (g h : A -> B) l : (forall a, R (g a) (h a)) -> Forall2 R (map g l) (map h l).
+Proof. intros H. induction l; cbn; constructor; auto. Qed.
+
+Lemma split_two_last {A} (l : list A) n : length l = S (S n) -> exists B x y, l = B ++ [x; y] /\ length B = n.
+Proof.
+  intros H. destruct (exists_last_or_nil l) as [-> | (l1 & y & ->)]; [discriminate|].
+  rewrite app_length in H. cbn in H.
+  destruct (exists_last_or_nil l1) as [-> | (l2 & x & ->)]; [cbn in H; lia|].
+  rewrite app_length in H. cbn in H. exists l2, x, y. rewrite <- app_assoc. split; [reflexivity|lia].
+Qed.
+
+Lemma nth_repeat_false n f : nth f (repeat false n) true = negb (Nat.ltb f n).
+Proof.
+  revert f. induction n as [|n IH]; intros f; cbn [repeat]. { destruct f; reflexivity. }
+  destruct f as [|f]; [reflexivity|]. cbn [nth]. rewrite IH. reflexivity.
+Qed.
+
+Lemma perm_strip {X} (A FF : list X) y c : Permutation (y :: rev A ++ [c] ++ FF) ((c :: FF) ++ A ++ [y]).
+Proof.
+  apply Permutation_sym. eapply Permutation_trans; [apply Permutation_app_comm|].
+  change (y :: rev A ++ [c] ++ FF) with ((y :: rev A) ++ (c :: FF)). apply Permutation_app_tail.
+  eapply Permutation_trans; [apply Permutation_app_comm|]. cbn [app]. apply perm_skip. apply Permutation_rev.
+Qed.
+
+Lemma NoDup_app_l {A} (l1 l2 : list A) : NoDup (l1 ++ l2) -> NoDup l1.
+Proof. induction l1 as [|a r IH]; cbn; intros H; [constructor|]. inversion H; subst. constructor; auto. rewrite in_app_iff in *. tauto. Qed.
+
+Section Full.
+  Variable faces : list face.
+  Variable opp : list (option nat).
+  Notation p := (corner_point faces).
+  Notation nf := (length faces).
+
+  (** well-formedness of the opposite-corner table: a symmetric pairing of existing corners.  This is clause 1a of
+      C13 ([C13_opp_symmetric]). *)
+  Definition opp_wf : Prop := forall a b, opposite opp a = Some b -> opposite opp b = Some a /\ b < 3 * nf.
+
+  Definition link (e a : nat) : Prop := get_opposite faces opp e = Some a.
+
+  Lemma link_opp e a : link e a -> opposite opp e = Some a.
+  Proof. intros H. apply get_opposite_some in H. tauto. Qed.
+
+  Lemma link_sym : opp_wf -> forall e a, link e a -> link a e.
+  Proof.
+    intros WF e a H. apply get_opposite_some in H. destruct H as (Ho & E1 & E2).
+    apply WF in Ho. destruct Ho as [Ho _]. unfold link, get_opposite. rewrite Ho.
+    rewrite <- E2, <- E1, !Nat.eqb_refl. reflexivity.
+  Qed.
+
+  (** [W i e cs]: a walker standing in the face at strip position [i], about to cross the edge opposite to corner
+      [e], reaches the corners [cs] one after the other (strip positions i+1, i+2, ...), every crossed edge passing
+      the seam test, the exit corner of each face being StoreStrip's / GenerateStripsFromCorner's. *)
+  Fixpoint W (i e : nat) (cs : list nat) : Prop :=
+    match cs with
+    | [] => True
+    | c :: r => link e c /\ W (S i) (step_corner (S i) c) r
+    end.
+
+  Lemma W_parity cs : forall i j e, Nat.odd i = Nat.odd j -> W i e cs -> W j e cs.
+  Proof.
+    induction cs as [|c r IH]; intros i j e Hp H; cbn [W] in *; auto.
+    destruct H as [H1 H2]. split; auto.
+    rewrite (step_corner_parity (S j) (S i)) by (try lia; rewrite !Nat.odd_succ, <- !Nat.negb_odd; congruence).
+    eapply IH; [|exact H2]. rewrite !Nat.odd_succ, <- !Nat.negb_odd; congruence.
+  Qed.
+  Lemma W_app_l cs1 : forall cs2 i e, W i e (cs1 ++ cs2) -> W i e cs1.
+  Proof. induction cs1 as [|c r IH]; intros; cbn [W app] in *; auto. destruct H; split; eauto. Qed.
+
+  (* ---------------------------------------------------------------- the growing loop *)
+  Lemma grow_step k b vis ci fi na start acc :
+    grow faces opp (S k) b vis ci fi na start acc =
+    if nth fi vis true then Some (vis, acc, start, na)
+    else match get_opposite faces opp (step_corner na ci) with
+         | None => Some (upd fi true vis, acc ++ [fi], (if b && Nat.odd na then ci else start), S na)
+         | Some ci2 => grow faces opp k b (upd fi true vis) ci2 (c_face ci2) (S na) (if b && Nat.odd na then ci else start) (acc ++ [fi])
+         end.
+  Proof.
+    cbn [grow]. destruct (nth fi vis true); auto.
+    destruct na as [|na].
+    - cbn. rewrite andb_false_r. reflexivity.
+    - replace (Nat.ltb 1 (S (S na))) with true by (symmetry; apply Nat.ltb_lt; lia).
+      unfold step_corner. cbn [Nat.eqb].
+      rewrite (Nat.odd_succ (S na)), <- Nat.negb_odd.
+      destruct (Nat.odd (S na)); cbn [negb]; destruct b; cbn [andb]; reflexivity.
+  Qed.
+
+  (** the start corner after a backward pass: the corner at which the last even face was reached *)
+  Fixpoint bstart (n start : nat) (cs : list nat) : nat :=
+    match cs with [] => start | c :: r => bstart (S n) (if Nat.odd n then c else start) r end.
+
+  Lemma grow_spec : forall fuel b vis ci na start acc, count_unvis vis < fuel ->
+    exists cs,
+      grow faces opp fuel b vis ci (c_face ci) na start acc =
+        Some (mark (map c_face cs) vis, acc ++ map c_face cs, (if b then bstart na start cs else start), na + length cs) /\
+      NoDup (map c_face cs) /\ Forall (unvis vis) (map c_face cs) /\
+      (cs = [] /\ nth (c_face ci) vis true = true \/ exists r, cs = ci :: r /\ W na (step_corner na ci) r).
+  Proof.
+    induction fuel as [|k IH]; intros b vis ci na start acc Hf; [lia|].
+    rewrite grow_step. destruct (nth (c_face ci) vis true) eqn:Ev.
+    - exists []. cbn. rewrite app_nil_r, Nat.add_0_r. split; [destruct b; reflexivity|]. repeat split; auto; constructor.
+    - assert (Hc := count_unvis_upd vis (c_face ci) Ev).
+      destruct (get_opposite faces opp (step_corner na ci)) as [c2|] eqn:Eg.
+      + destruct (IH b (upd (c_face ci) true vis) c2 (S na) (if b && Nat.odd na then ci else start) (acc ++ [c_face ci])) as (cs & E & ND & FA & Hw); [lia|].
+        exists (ci :: cs). cbn [map mark length]. rewrite E. rewrite <- app_assoc. cbn [app].
+        replace (S na + length cs) with (na + S (length cs)) by lia.
+        split. { f_equal. f_equal. destruct b; cbn [andb bstart]; reflexivity. }
+        assert (Hnot : ~ In (c_face ci) (map c_face cs)).
+        { intros Hin. rewrite Forall_forall in FA. apply FA in Hin. unfold unvis in Hin.
+          rewrite nth_upd_true, Nat.eqb_refl in Hin. discriminate. }
+        split. { constructor; auto. }
+        split. { constructor; [exact Ev|]. eapply Forall_impl; [|exact FA]. intros f Hu. unfold unvis in *.
+                 rewrite nth_upd_true in Hu. apply orb_false_iff in Hu. tauto. }
+        right. exists cs. split; auto. destruct Hw as [[-> _] | (r & -> & Hw)]; cbn [W]; auto.
+      + exists [ci]. cbn [map mark length]. replace (na + 1) with (S na) by lia.
+        split. { f_equal. f_equal. destruct b; cbn [andb bstart]; reflexivity. }
+        split. { constructor; auto. constructor. }
+        split. { constructor; auto. }
+        right. exists []. split; auto. exact I.
+  Qed.
+  (* ---------------------------------------------------------------- retracing: the backward pass, reversed *)
+  Lemma last_cons {A} (a d : A) l : last (a :: l) d = last l a.
+  Proof. revert a d. induction l as [|b l IH]; intros; [reflexivity|]. change (last (a :: b :: l) d) with (last (b :: l) d). rewrite !IH. reflexivity. Qed.
+
+  Lemma step_step n c : step_corner (S (S (S n))) (step_corner n c) = if Nat.eqb n 0 then c_prev c else c.
+  Proof.
+    destruct n as [|n]. { reflexivity. }
+    rewrite (step_corner_pos (S (S (S (S n))))) by lia. rewrite (step_corner_pos (S n)) by lia.
+    cbn [Nat.eqb]. rewrite (Nat.odd_succ (S (S (S n)))), (Nat.even_succ (S (S n))), (Nat.odd_succ (S n)), <- (Nat.negb_odd (S n)).
+    destruct (Nat.odd (S n)); cbn [negb]; [apply next_prev | apply prev_next].
+  Qed.
+
+  Lemma back_rev F : opp_wf -> forall P' n c rs,
+    W (S n) (if Nat.eqb n 0 then c_prev c else c) (rs ++ F) ->
+    W n (step_corner n c) P' ->
+    exists rs', W (S (n + length P')) (if Nat.eqb (n + length P') 0 then c_prev (last P' c) else last P' c) (rs' ++ F) /\
+                map c_face rs' = rev (map c_face (removelast (c :: P'))) ++ map c_face rs.
+  Proof.
+    intros WF. induction P' as [|c' P'' IH]; intros n c rs HI HW.
+    - exists rs. cbn [length last removelast map rev app]. rewrite Nat.add_0_r. auto.
+    - cbn [W] in HW. destruct HW as [HL HW].
+      destruct (IH (S n) c' (step_corner n c :: rs)) as (rs' & H1 & H2); auto.
+      { cbn [Nat.eqb app W]. split; [apply link_sym; auto|].
+        rewrite step_step. eapply W_parity; [|exact HI]. reflexivity. }
+      exists rs'. cbn [length]. replace (n + S (length P'')) with (S n + length P'') by lia. rewrite last_cons.
+      split; [exact H1|]. rewrite H2. change (removelast (c :: c' :: P'')) with (c :: removelast (c' :: P'')).
+      cbn [map rev]. rewrite face_step, <- app_assoc. reflexivity.
+  Qed.
+
+  Lemma bstart_snoc cs : forall n start c, bstart n start (cs ++ [c]) = if Nat.odd (n + length cs) then c else bstart n start cs.
+  Proof.
+    induction cs as [|a r IH]; intros; cbn [app bstart length].
+    - rewrite Nat.add_0_r. reflexivity.
+    - rewrite IH. replace (S n + length r) with (n + S (length r)) by lia. reflexivity.
+  Qed.
+
+  Lemma NoDup_app_intro {A} (l1 l2 : list A) : NoDup l1 -> NoDup l2 -> (forall x, In x l1 -> ~ In x l2) -> NoDup (l1 ++ l2).
+  Proof.
+    induction l1 as [|a r IH]; intros H1 H2 H; cbn; auto. inversion H1; subst.
+    constructor. { rewrite in_app_iff. intros [X|X]; [auto|]. eapply H; [left; reflexivity|exact X]. }
+    apply IH; auto. intros x Hx. apply H. right; auto.
+  Qed.
+
+  (** what GenerateStripsFromCorner delivers: a start corner from which StoreStrip's walk, crossing only edges that
+      pass the seam test, visits exactly the faces of strip_faces_ (in another order), all of them unvisited and
+      pairwise different, the seed face among them *)
+  Definition strip_ok (vis : list bool) (fi : nat) (sf : list nat) (start : nat) : Prop :=
+    exists cs, W 0 start cs /\ Permutation (map c_face (start :: cs)) sf /\ NoDup sf /\ Forall (unvis vis) sf /\ In fi sf.
+
+  Lemma strip_from_corner_spec : opp_wf -> forall vis ci, length vis = nf -> unvis vis (c_face ci) ->
+    exists sf start, strip_from_corner faces opp vis ci = Some (sf, start) /\ strip_ok vis (c_face ci) sf start.
+  Proof.
+    intros WF vis ci Hlen Hun. unfold strip_from_corner.
+    destruct (grow_spec (S nf) false vis ci 0 ci []) as (cs1 & E1 & ND1 & FA1 & Hw1).
+    { pose proof (count_unvis_le vis). lia. }
+    rewrite E1. destruct Hw1 as [[_ Hv] | (F & -> & HF)]; [unfold unvis in Hun; congruence|].
+    change (step_corner 0 ci) with ci in HF. cbn [app]. set (acc1 := map c_face (ci :: F)) in *.
+    assert (Hfwd : strip_ok vis (c_face ci) acc1 ci).
+    { exists F. repeat split; auto. left; reflexivity. }
+    destruct (get_opposite faces opp (c_prev ci)) as [o|] eqn:Eo. 2:{ eauto. }
+    rewrite next_next. rewrite (link_opp _ _ Eo).
+    destruct (grow_spec (S nf) true (mark acc1 vis) (c_next o) 0 ci acc1) as (cs2 & E2 & ND2 & FA2 & Hw2).
+    { pose proof (count_unvis_le (mark acc1 vis)). rewrite mark_length in *. lia. }
+    rewrite E2. cbn [Nat.add].
+    (* both outcomes are an even-length prefix of the backward pass *)
+    assert (Hpre : forall P T, cs2 = P ++ T -> Nat.odd (length P) = false ->
+                               strip_ok vis (c_face ci) (acc1 ++ map c_face P) (bstart 0 ci P)).
+    { intros P T EP Hev.
+      destruct (exists_last_or_nil P) as [-> | (P0 & y & ->)].
+      { cbn. rewrite app_nil_r. exact Hfwd. }
+      rewrite app_length in Hev. cbn [length] in Hev.
+      rewrite bstart_snoc. cbn [Nat.add].
+      assert (Hodd : Nat.odd (length P0) = true).
+      { replace (length P0 + 1) with (S (length P0)) in Hev by lia. rewrite Nat.odd_succ, <- Nat.negb_odd in Hev.
+        destruct (Nat.odd (length P0)); auto. }
+      rewrite Hodd.
+      destruct Hw2 as [[-> _] | (r & Ecs & Hr)]; [destruct P0; discriminate|].
+      change (step_corner 0 (c_next o)) with (c_next o) in Hr.
+      destruct P0 as [|c0 P']; [discriminate|].
+      assert (c0 = c_next o /\ r = (P' ++ [y]) ++ T) as [-> ->].
+      { rewrite Ecs in EP. cbn in EP. inversion EP; auto. }
+      apply W_app_l in Hr.
+      destruct (back_rev F WF (P' ++ [y]) 0 (c_next o) [c_prev ci]) as (rs' & H1 & H2).
+      { cbn [Nat.eqb app W]. rewrite prev_next. split; [apply link_sym; auto|].
+        change (step_corner 2 (c_prev ci)) with (c_next (c_prev ci)). rewrite next_prev.
+        eapply W_parity; [|exact HF]. reflexivity. }
+      { exact Hr. }
+      rewrite app_length in H1. cbn [length Nat.add] in H1.
+      replace (length P' + 1) with (S (length P')) in H1 by lia. cbn [Nat.eqb] in H1.
+      rewrite last_last in H1.
+      exists (rs' ++ F). split.
+      { eapply W_parity; [|exact H1]. cbn [length] in Hodd. rewrite Nat.odd_succ, <- Nat.negb_odd in Hodd.
+        change (Nat.odd (S (S (length P')))) with (Nat.odd (length P')).
+        destruct (Nat.odd (length P')); [discriminate|reflexivity]. }
+      assert (Hrl : removelast (c_next o :: P' ++ [y]) = c_next o :: P').
+      { change (c_next o :: P' ++ [y]) with ((c_next o :: P') ++ [y]). apply removelast_last. }
+      rewrite Hrl in H2.
+      split.
+      { change (c_next o :: P' ++ [y]) with ((c_next o :: P') ++ [y]).
+        cbn [map]. rewrite !map_app, H2. cbn [map]. rewrite face_prev. unfold acc1. cbn [map].
+        rewrite <- app_assoc. apply perm_strip. }
+      assert (HP : incl (map c_face ((c_next o :: P') ++ [y])) (map c_face cs2)).
+      { rewrite EP. change (c_next o :: P' ++ [y]) with ((c_next o :: P') ++ [y]). rewrite (map_app c_face (_ ++ _) T). apply incl_appl, incl_refl. }
+      rewrite Forall_forall in FA2.
+      split.
+      { apply NoDup_app_intro; auto.
+        - rewrite EP in ND2. rewrite map_app in ND2. apply NoDup_app_l in ND2. exact ND2.
+        - intros x Hx Hx2. apply HP in Hx2. apply FA2 in Hx2. apply unvis_mark in Hx2. tauto. }
+      split.
+      { apply Forall_app. split; auto. apply Forall_forall. intros x Hx. apply HP in Hx. apply FA2 in Hx. apply unvis_mark in Hx. tauto. }
+      apply in_or_app. left. left. reflexivity. }
+    destruct (Nat.odd (length cs2)) eqn:Eodd.
+    - destruct (exists_last_or_nil cs2) as [-> | (P & x & EP)]; [discriminate|].
+      exists (acc1 ++ map c_face P), (bstart 0 ci P). rewrite EP in *.
+      rewrite app_length in Eodd. cbn [length] in Eodd. replace (length P + 1) with (S (length P)) in Eodd by lia.
+      rewrite Nat.odd_succ, <- Nat.negb_odd in Eodd.
+      assert (Hev : Nat.odd (length P) = false) by (destruct (Nat.odd (length P)); auto; discriminate).
+      split; [|eapply Hpre; eauto].
+      rewrite bstart_snoc, Nat.add_0_l, Hev. rewrite map_app, app_assoc. cbn [map]. rewrite removelast_last. reflexivity.
+    - exists (acc1 ++ map c_face cs2), (bstart 0 ci cs2). split; auto. apply (Hpre cs2 []); auto. symmetry; apply app_nil_r.
+  Qed.
+  Lemma find_longest_spec : opp_wf -> forall vis fi, length vis = nf -> unvis vis fi ->
+    exists sf start, find_longest faces opp vis fi = Some (sf, start) /\ strip_ok vis fi sf start.
+  Proof.
+    intros WF vis fi Hlen Hun. unfold find_longest.
+    assert (F0 : c_face (3 * fi) = fi) by (unfold c_face; lia).
+    assert (F1 : c_face (3 * fi + 1) = fi) by (unfold c_face; lia).
+    assert (F2 : c_face (3 * fi + 2) = fi) by (unfold c_face; lia).
+    destruct (strip_from_corner_spec WF vis (3 * fi) Hlen) as (sf0 & st0 & E0 & K0); [rewrite F0; auto|].
+    destruct (strip_from_corner_spec WF vis (3 * fi + 1) Hlen) as (sf1 & st1 & E1 & K1); [rewrite F1; auto|].
+    destruct (strip_from_corner_spec WF vis (3 * fi + 2) Hlen) as (sf2 & st2 & E2 & K2); [rewrite F2; auto|].
+    rewrite E0, E1, E2. rewrite F0 in K0. rewrite F1 in K1. rewrite F2 in K2. cbn [fst].
+    assert (L0 : Nat.ltb 0 (length sf0) = true).
+    { apply Nat.ltb_lt. destruct K0 as (cs & _ & _ & _ & _ & Hin). destruct sf0; [destruct Hin|cbn; lia]. }
+    rewrite L0. cbn [fst].
+    destruct (Nat.ltb (length sf0) (length sf1)); cbn [fst];
+      match goal with |- context [Nat.ltb ?a ?b] => destruct (Nat.ltb a b) end; eauto.
+  Qed.
+
+  (* ---------------------------------------------------------------- StoreStrip as a function of its walk *)
+  Fixpoint emit_cs (i : nat) (cs : list nat) : list nat :=
+    match cs with
+    | [] => []
+    | c :: r => (if Nat.eqb i 0 then [p c; p (c_next c); p (c_prev c)] else [p c]) ++ emit_cs (S i) r
+    end.
+
+  Lemma store_strip_eq n : forall i ci vis lst,
+    store_strip faces opp n i ci vis lst =
+    match walk opp n i ci with
+    | None => None
+    | Some cs => Some (emit_cs i cs, mark (map c_face cs) vis, last (emit_cs i cs) lst)
+    end.
+  Proof.
+    induction n as [|k IH]; intros; [reflexivity|].
+    cbn [store_strip walk]. destruct k as [|k'].
+    - destruct (Nat.eqb i 0) eqn:Ei; cbn [emit_cs map mark app]; rewrite Ei; reflexivity.
+    - assert (Es : step_corner i ci = if Nat.eqb i 0 then ci else if Nat.odd i then c_prev ci else c_next ci) by reflexivity.
+      rewrite Es.
+      destruct (Nat.eqb i 0) eqn:Ei.
+      + destruct (opposite opp ci) as [c2|]; [|reflexivity]. rewrite IH.
+        destruct (walk opp (S k') (S i) c2) as [cs|]; [|reflexivity]. cbn [option_map emit_cs map mark]. rewrite Ei.
+        f_equal. f_equal. cbn [app].
+        destruct (emit_cs (S i) cs) eqn:Ee; [reflexivity|]. rewrite !last_cons. reflexivity.
+      + destruct (opposite opp (if Nat.odd i then c_prev ci else c_next ci)) as [c2|]; [|reflexivity]. rewrite IH.
+        destruct (walk opp (S k') (S i) c2) as [cs|]; [|reflexivity]. cbn [option_map emit_cs map mark]. rewrite Ei.
+        f_equal. f_equal. cbn [app].
+        destruct (emit_cs (S i) cs) eqn:Ee; [reflexivity|]. rewrite !last_cons. reflexivity.
+  Qed.
+  Lemma W_walk cs : forall i c, W i (step_corner i c) cs ->
+    walk opp (S (length cs)) i c = Some (c :: cs) /\ walk_ok faces opp (S (length cs)) i c = true.
+  Proof.
+    induction cs as [|c' r IH]; intros i c H; cbn [length walk walk_ok W] in *; [auto|].
+    destruct H as [HL HW]. rewrite (link_opp _ _ HL). unfold link in HL. rewrite HL.
+    destruct (IH (S i) c' HW) as [A B]. rewrite A. cbn [option_map]. auto.
+  Qed.
+
+  (** a stored strip: the corners StoreStrip reaches, the first one being the start corner *)
+  Definition good (cs : list nat) : Prop := match cs with [] => False | c :: r => W 0 c r end.
+
+  Lemma good_walk cs : good cs -> walk opp (length cs) 0 (hd 0 cs) = Some cs /\ walk_ok faces opp (length cs) 0 (hd 0 cs) = true.
+  Proof. destruct cs as [|c r]; [intros []|]. intros H. apply (W_walk r 0 c). exact H. Qed.
+
+  Lemma strip_decode cs : good cs -> Forall2 rot_equiv (map (tri_of_corner faces) cs) (decode_strip 0 (emit_cs 0 cs)).
+  Proof.
+    intros G. destruct (good_walk cs G) as [A B].
+    pose proof (store_strip_eq (length cs) 0 (hd 0 cs) [] 0) as E. rewrite A in E.
+    exact (proj1 (store_strip_sound faces opp _ _ _ _ _ _ _ _ B E A)).
+  Qed.
+
+  Lemma tri_of_corner_face c : rot_equiv (nth (c_face c) faces (0, 0, 0)) (tri_of_corner faces c).
+  Proof.
+    unfold tri_of_corner, corner_point.
+    pose proof (face_next c) as Fn. pose proof (face_prev c) as Fp. unfold c_face in *. rewrite Fn, Fp.
+    destruct (nth (c / 3) faces (0, 0, 0)) as [[x y] z].
+    unfold rot_equiv, rot_left.
+    destruct (mod3_cases c) as [H | [H | H]].
+    - assert (c_next c mod 3 = 1) as -> by (clear Fn Fp; corner_arith).
+      assert (c_prev c mod 3 = 2) as -> by (clear Fn Fp; corner_arith). rewrite H. cbn. auto.
+    - assert (c_next c mod 3 = 2) as -> by (clear Fn Fp; corner_arith).
+      assert (c_prev c mod 3 = 0) as -> by (clear Fn Fp; corner_arith). rewrite H. cbn. auto.
+    - assert (c_next c mod 3 = 0) as -> by (clear Fn Fp; corner_arith).
+      assert (c_prev c mod 3 = 1) as -> by (clear Fn Fp; corner_arith). rewrite H. cbn. auto.
+  Qed.
+
+  (* ---------------------------------------------------------------- coverage: the main loop *)
+  Definition plan_of (css : list (list nat)) : list (nat * nat) := map (fun cs => (length cs, hd 0 cs)) css.
+
+  Lemma gen_plan_spec : opp_wf -> forall todo fi vis done,
+    todo + fi = nf -> length vis = nf ->
+    (forall f, unvis vis f <-> f < nf /\ ~ In f done) -> NoDup done -> (forall f, In f done -> f < nf) ->
+    (forall f, f < fi -> In f done) ->
+    exists css, gen_plan faces opp todo fi vis = Some (plan_of css) /\ Forall good css /\
+                Permutation (done ++ flat_map (map c_face) css) (seq 0 nf).
+  Proof.
+    intros WF. induction todo as [|t IH]; intros fi vis done Hn Hlen Hvis Hnd Hlt Hall.
+    - exists []. cbn [gen_plan plan_of map flat_map]. rewrite app_nil_r. repeat split; auto.
+      apply NoDup_Permutation; auto using seq_NoDup. intros x. rewrite in_seq. split; intros H.
+      + split; [lia|]. cbn. apply Hlt. exact H.
+      + apply Hall. lia.
+    - cbn [gen_plan]. destruct (nth fi vis true) eqn:Ev.
+      + apply IH; auto; try lia. intros f Hf. destruct (Nat.eq_dec f fi) as [->|Hne]; [|apply Hall; lia].
+        destruct (in_dec Nat.eq_dec fi done) as [|Hnin]; auto. exfalso.
+        assert (U : unvis vis fi) by (apply Hvis; split; [lia|auto]). unfold unvis in U. congruence.
+      + destruct (find_longest_spec WF vis fi Hlen Ev) as (sf & start & E & cs & HW & HP & ND & FA & Hin).
+        rewrite E. assert (Hl : length sf = S (length cs)).
+        { apply Permutation_length in HP. cbn [map length] in HP. rewrite map_length in HP. lia. }
+        rewrite Hl. rewrite store_strip_eq. destruct (W_walk cs 0 start HW) as [Hwalk _]. rewrite Hwalk.
+        set (wk := map c_face (start :: cs)) in *.
+        rewrite Forall_forall in FA.
+        assert (Hsub : forall x, In x wk -> In x sf) by (intros x Hx; eapply Permutation_in; eauto).
+        destruct (IH (S fi) (mark wk vis) (done ++ wk)) as (css & Eg & Gc & Pm); try lia.
+        * rewrite mark_length. auto.
+        * intros f. rewrite unvis_mark, Hvis, in_app_iff. tauto.
+        * apply NoDup_app_intro; auto. { eapply Permutation_NoDup; [apply Permutation_sym; exact HP|exact ND]. }
+          intros x Hx Hx2. apply Hsub, FA, Hvis in Hx2. tauto.
+        * intros f Hf. apply in_app_or in Hf. destruct Hf as [Hf|Hf]; auto. apply Hsub, FA, unvis_lt in Hf. lia.
+        * intros f Hf. apply in_or_app. destruct (Nat.eq_dec f fi) as [->|Hne]; [|left; apply Hall; lia].
+          right. eapply Permutation_in; [apply Permutation_sym; exact HP|exact Hin].
+        * rewrite Eg. exists ((start :: cs) :: css). cbn [plan_of map length hd flat_map]. split; [reflexivity|].
+          split; [constructor; auto|]. rewrite app_assoc. exact Pm.
+  Qed.
+  (* ---------------------------------------------------------------- the two output streams as functions of the plan *)
+  Fixpoint render_r (first : bool) (css : list (list nat)) : list (option nat) :=
+    match css with
+    | [] => []
+    | cs :: r => (if first then [] else [None]) ++ map Some (emit_cs 0 cs) ++ render_r false r
+    end.
+
+  Fixpoint render_d (first : bool) (nenc lst : nat) (css : list (list nat)) : list nat :=
+    match css with
+    | [] => []
+    | cs :: r =>
+      let sp := p (hd 0 cs) in
+      let sep := if first then [] else if Nat.odd (nenc + 2) then [lst; sp; sp] else [lst; sp] in
+      let nenc1 := if first then nenc else if Nat.odd (nenc + 2) then nenc + 3 else nenc + 2 in
+      sep ++ emit_cs 0 cs ++ render_d false (nenc1 + length cs) (last (emit_cs 0 cs) lst) r
+    end.
+
+  Lemma plan_of_cons_inv css n s pl : plan_of css = (n, s) :: pl ->
+    exists cs css', css = cs :: css' /\ length cs = n /\ hd 0 cs = s /\ plan_of css' = pl.
+  Proof. destruct css as [|cs css']; cbn; intros H; inversion H. eauto 6. Qed.
+
+  Lemma restart_of_plan : forall todo fi vis ns css,
+    gen_plan faces opp todo fi vis = Some (plan_of css) -> Forall good css ->
+    gen_restart faces opp todo fi vis ns = Some (render_r (Nat.eqb ns 0) css).
+  Proof.
+    induction todo as [|t IH]; intros fi vis ns css H G.
+    - cbn in H. inversion H as [H1]. destruct css; [reflexivity|discriminate].
+    - cbn [gen_plan gen_restart] in *. destruct (nth fi vis true). { apply IH; auto. }
+      destruct (find_longest faces opp vis fi) as [[sf start]|]; [|discriminate].
+      destruct (store_strip faces opp (length sf) 0 start vis 0) as [[[out vis'] l']|] eqn:Es; [|discriminate].
+      destruct (gen_plan faces opp t (S fi) vis') as [pl|] eqn:Eg; [|discriminate].
+      inversion H as [H1]. symmetry in H1. apply plan_of_cons_inv in H1. destruct H1 as (cs & css' & -> & El & Eh & <-).
+      inversion G as [|? ? Gc Gr]; subst.
+      rewrite store_strip_eq in Es. destruct (good_walk cs Gc) as [Hw _]. rewrite <- El, Hw in Es. inversion Es; subst.
+      rewrite (IH _ _ (S ns) css' Eg Gr). cbn [render_r Nat.eqb]. destruct ns; reflexivity.
+  Qed.
+
+  Lemma degenerate_of_plan : forall todo fi vis ns nenc lst css,
+    gen_plan faces opp todo fi vis = Some (plan_of css) -> Forall good css ->
+    gen_degenerate faces opp todo fi vis ns nenc lst = Some (render_d (Nat.eqb ns 0) nenc lst css).
+  Proof.
+    induction todo as [|t IH]; intros fi vis ns nenc lst css H G.
+    - cbn in H. inversion H as [H1]. destruct css; [reflexivity|discriminate].
+    - cbn [gen_plan gen_degenerate] in *. destruct (nth fi vis true). { apply IH; auto. }
+      destruct (find_longest faces opp vis fi) as [[sf start]|]; [|discriminate].
+      rewrite store_strip_eq in H. rewrite store_strip_eq.
+      destruct (walk opp (length sf) 0 start) as [wcs|] eqn:Ew; [|discriminate].
+      destruct (gen_plan faces opp t (S fi) (mark (map c_face wcs) vis)) as [pl|] eqn:Eg; [|discriminate].
+      inversion H as [H1]. symmetry in H1. apply plan_of_cons_inv in H1. destruct H1 as (cs & css' & -> & El & Eh & <-).
+      inversion G as [|? ? Gc Gr]; subst.
+      destruct (good_walk cs Gc) as [Hw _]. rewrite <- El, Hw in Ew. inversion Ew; subst wcs.
+      cbn [render_d]. destruct ns as [|ns]; cbn [Nat.ltb Nat.leb Nat.eqb].
+      + rewrite (IH _ _ 1 _ _ css' Eg Gr). cbn [Nat.eqb app]. rewrite El. reflexivity.
+      + destruct (Nat.odd (nenc + 2)); rewrite (IH _ _ (S (S ns)) _ _ css' Eg Gr); cbn [Nat.eqb]; rewrite El; reflexivity.
+  Qed.
+
+  (* ---------------------------------------------------------------- decoding the restart stream *)
+  Lemma split_render_false css : split_restart (render_r false css) = ([], map (emit_cs 0) css).
+  Proof.
+    induction css as [|cs r IH]; [reflexivity|]. cbn [render_r app split_restart map].
+    assert (E : forall out rest c rs, split_restart rest = (c, rs) -> split_restart (map Some out ++ rest) = (out ++ c, rs)).
+    { induction out as [|a o IHo]; intros rest c rs H; cbn [map app split_restart]; auto. rewrite (IHo _ _ _ H). reflexivity. }
+    rewrite (E _ _ _ _ IH). rewrite app_nil_r. reflexivity.
+  Qed.
+  Lemma decode_render_r css : decode_restart (render_r true css) = flat_map (fun cs => decode_strip 0 (emit_cs 0 cs)) css.
+  Proof.
+    destruct css as [|cs r]; [reflexivity|]. unfold decode_restart, restart_runs. cbn [render_r app].
+    assert (E : forall out rest c rs, split_restart rest = (c, rs) -> split_restart (map Some out ++ rest) = (out ++ c, rs)).
+    { induction out as [|a o IHo]; intros rest c rs H; cbn [map app split_restart]; auto. rewrite (IHo _ _ _ H). reflexivity. }
+    rewrite (E _ _ _ _ (split_render_false r)). rewrite app_nil_r. cbn [flat_map]. f_equal.
+    rewrite flat_map_concat_map, map_map, <- flat_map_concat_map. reflexivity.
+  Qed.
+  Lemma decode_strips_sound css : Forall good css ->
+    Forall2 rot_equiv (map (tri_of_corner faces) (concat css)) (flat_map (fun cs => decode_strip 0 (emit_cs 0 cs)) css).
+  Proof.
+    induction 1 as [|cs r G _ IH]; cbn [concat flat_map map]; [constructor|].
+    rewrite map_app. apply Forall2_app; auto. apply strip_decode; auto.
+  Qed.
+
+  (* ---------------------------------------------------------------- decoding the degenerate-triangle stream *)
+  Lemma emit_length cs : forall i, length (emit_cs (S i) cs) = length cs.
+  Proof. induction cs as [|c r IH]; intros; cbn [emit_cs length Nat.eqb app]; auto. Qed.
+  Lemma emit_shape cs d : good cs -> exists A x E,
+    emit_cs 0 cs = A ++ [x; last (emit_cs 0 cs) d] /\ length A = length cs /\ emit_cs 0 cs = p (hd 0 cs) :: E.
+  Proof.
+    destruct cs as [|c r]; [intros []|]. intros _.
+    assert (L : length (emit_cs 0 (c :: r)) = S (S (length (c :: r)))).
+    { cbn [emit_cs Nat.eqb app length]. rewrite emit_length. reflexivity. }
+    destruct (split_two_last _ _ L) as (A & x & y & E & HA).
+    exists A, x, (p (c_next c) :: p (c_prev c) :: emit_cs 1 r). split; [|split; [exact HA|reflexivity]].
+    rewrite E at 2. replace (A ++ [x; y]) with ((A ++ [x]) ++ [y]) by (rewrite <- app_assoc; reflexivity).
+    rewrite last_last. exact E.
+  Qed.
+
+  Notation tgt css := (filter tri_nondeg (map (tri_of_corner faces) (concat css))).
+
+  Lemma decode_render_d css : Forall good css -> forall nenc lst,
+    (Nat.odd nenc = false ->
+       Forall2 rot_equiv (tgt css) (filter tri_nondeg (decode_strip 0 (render_d true nenc lst css)))) /\
+    (forall x, Forall2 rot_equiv (tgt css) (filter tri_nondeg (decode_strip nenc (x :: lst :: render_d false nenc lst css)))).
+  Proof.
+    induction 1 as [|cs r G Gr IH]; intros nenc lst.
+    - cbn. split; intros; constructor.
+    - assert (Core : forall nenc1, Nat.odd nenc1 = false ->
+        Forall2 rot_equiv (tgt (cs :: r))
+          (filter tri_nondeg (decode_strip 0 (emit_cs 0 cs ++ render_d false (nenc1 + length cs) (last (emit_cs 0 cs) lst) r)))).
+      { intros nenc1 Hev. destruct (emit_shape cs lst G) as (A & x' & E' & Esh & HA & _).
+        set (L' := last (emit_cs 0 cs) lst) in *. rewrite Esh at 1. rewrite <- app_assoc. cbn [app].
+        rewrite decode_app, <- Esh, filter_app. cbn [concat]. rewrite map_app, filter_app.
+        apply Forall2_app.
+        - apply Forall2_filter; [apply nondeg_rot|]. apply strip_decode; auto.
+        - rewrite (decode_parity _ (0 + length A) (nenc1 + length cs)).
+          + apply (proj2 (IH (nenc1 + length cs) L')).
+          + rewrite HA, Nat.add_0_l, Nat.odd_add, Hev. destruct (Nat.odd (length cs)); reflexivity. }
+      split.
+      + intros Hev. cbn [render_d app]. apply Core; auto.
+      + intros x. cbn [render_d]. destruct (emit_shape cs lst G) as (_ & _ & E' & _ & _ & Ehd).
+        destruct (Nat.odd (nenc + 2)) eqn:Eo.
+        * rewrite Ehd at 1. cbn [app]. rewrite nondeg_sep3, app_comm_cons, <- Ehd.
+          rewrite (decode_parity _ (5 + nenc) 0).
+          -- apply Core. rewrite Nat.odd_add in *. destruct (Nat.odd nenc); cbn in *; congruence.
+          -- rewrite Nat.odd_add in *. destruct (Nat.odd nenc); cbn in *; congruence.
+        * rewrite Ehd at 1. cbn [app]. rewrite nondeg_sep2, app_comm_cons, <- Ehd.
+          rewrite (decode_parity _ (4 + nenc) 0).
+          -- apply Core. rewrite Nat.odd_add in *. destruct (Nat.odd nenc); cbn in *; congruence.
+          -- rewrite Nat.odd_add in *. destruct (Nat.odd nenc); cbn in *; congruence.
+  Qed.
+  (* ---------------------------------------------------------------- the strip clause of C14 *)
+  Lemma plan_exists : opp_wf ->
+    exists css, gen_plan faces opp nf 0 (repeat false nf) = Some (plan_of css) /\ Forall good css /\
+                Permutation (map c_face (concat css)) (seq 0 nf).
+  Proof.
+    intros WF. destruct (gen_plan_spec WF nf 0 (repeat false nf) []) as (css & E & G & P); auto; try lia.
+    - apply repeat_length.
+    - intros f. unfold unvis. rewrite nth_repeat_false. destruct (Nat.ltb_spec f nf); cbn; intuition (try lia; try congruence).
+    - constructor.
+    - intros f [].
+    - exists css. cbn [app] in P. rewrite flat_map_concat_map, <- concat_map in P. auto.
+  Qed.
+
+  Lemma faces_vs_corners cs : Forall2 rot_equiv (map (fun f => nth f faces (0, 0, 0)) (map c_face cs)) (map (tri_of_corner faces) cs).
+  Proof. rewrite map_map. apply Forall2_map_pointwise. intros c. apply tri_of_corner_face. Qed.
+
+  (** THEOREM: the primitive-restart stream decodes to a permutation of the mesh's faces, each up to a rotation *)
+  Theorem strips_restart_preserve : opp_wf ->
+    exists s l, strips_restart faces opp = Some s /\ Permutation l (seq 0 nf) /\
+                Forall2 rot_equiv (map (fun f => nth f faces (0, 0, 0)) l) (decode_restart s).
+  Proof.
+    intros WF. destruct (plan_exists WF) as (css & E & G & P).
+    exists (render_r true css), (map c_face (concat css)). split; [|split; auto].
+    - unfold strips_restart. apply (restart_of_plan _ _ _ 0 css E G).
+    - rewrite decode_render_r. eapply Forall2_trans; [apply rot_equiv_trans|apply faces_vs_corners|].
+      apply decode_strips_sound; auto.
+  Qed.
+
+  (** THEOREM: the degenerate-triangle stream, decoded as ONE strip and with the triangles that have two equal
+      indices dropped, is a permutation of the mesh's faces that have three different point ids, each up to rotation *)
+  Theorem strips_degenerate_preserve : opp_wf ->
+    exists s l, strips_degenerate faces opp = Some s /\ Permutation l (seq 0 nf) /\
+                Forall2 rot_equiv (filter tri_nondeg (map (fun f => nth f faces (0, 0, 0)) l)) (decode_degenerate s).
+  Proof.
+    intros WF. destruct (plan_exists WF) as (css & E & G & P).
+    exists (render_d true 0 0 css), (map c_face (concat css)). split; [|split; auto].
+    - unfold strips_degenerate. apply (degenerate_of_plan _ _ _ 0 0 0 css E G).
+    - unfold decode_degenerate. eapply Forall2_trans; [apply rot_equiv_trans| |].
+      + apply Forall2_filter; [apply nondeg_rot|]. apply faces_vs_corners.
+      + apply (proj1 (decode_render_d css G 0 0)). reflexivity.
+  Qed.
+End Full.
+
+(** per-corner attribute values: a rotation of point ids is a rotation of the corner tuples of value bytes *)
+Definition rot3 {A} (x y : A * A * A) : Prop := let '(a, b, c) := x in y = (a, b, c) \/ y = (b, c, a) \/ y = (c, a, b).
+Lemma face_geom_rot atts f g : rot_equiv f g -> rot3 (face_geom atts f) (face_geom atts g).
+Proof. destruct f as [[a b] c]. unfold rot_equiv, rot_left. intros [-> | [-> | ->]]; cbn; auto. Qed.
+Lemma Forall2_map_rel {A B} (R : A -> A -> Prop) (R' : B -> B -> Prop) (f : A -> B) :
+  (forall a b, R a b -> R' (f a) (f b)) -> forall l1 l2, Forall2 R l1 l2 -> Forall2 R' (map f l1) (map f l2).
+Proof. intros H l1 l2 H2. induction H2; cbn; constructor; auto. Qed.
+
+Theorem strips_restart_preserve_values faces opp atts : opp_wf faces opp ->
+  exists s l, strips_restart faces opp = Some s /\ Permutation l (seq 0 (length faces)) /\
+    Forall2 rot3 (map (fun f => face_geom atts (nth f faces (0, 0, 0))) l) (map (face_geom atts) (decode_restart s)).
+Proof.
+  intros WF. destruct (strips_restart_preserve faces opp WF) as (s & l & E & P & F). exists s, l. repeat split; auto.
+  rewrite <- (map_map (fun f => nth f faces (0, 0, 0)) (face_geom atts)).
+  eapply Forall2_map_rel; [|exact F]. apply face_geom_rot.
+Qed.
+Theorem strips_degenerate_preserve_values faces opp atts : opp_wf faces opp ->
+  exists s l, strips_degenerate faces opp = Some s /\ Permutation l (seq 0 (length faces)) /\
+    Forall2 rot3 (map (face_geom atts) (filter tri_nondeg (map (fun f => nth f faces (0, 0, 0)) l)))
+                 (map (face_geom atts) (decode_degenerate s)).
+Proof.
+  intros WF. destruct (strips_degenerate_preserve faces opp WF) as (s & l & E & P & F). exists s, l. repeat split; auto.
+  eapply Forall2_map_rel; [|exact F]. apply face_geom_rot.
+Qed.
+
+(** the hypothesis as a computable test (the driver evaluates it on the library's table in every generated case) *)
+Lemma opp_wf_b_sound faces opp : opp_wf_b faces opp = true -> opp_wf faces opp.
+Proof.
+  intros H a b Hab. unfold opposite in *. unfold opp_wf_b in H. rewrite forallb_forall in H.
+  assert (Ha : a < length opp).
+  { destruct (Nat.lt_ge_cases a (length opp)); auto. rewrite nth_overflow in Hab by lia. discriminate. }
+  specialize (H a). rewrite Hab in H. rewrite in_seq in H. specialize (H ltac:(lia)).
+  apply andb_true_iff in H. destruct H as [H1 H2]. apply Nat.ltb_lt in H1.
+  destruct (nth b opp None) as [a'|]; [|discriminate]. apply Nat.eqb_eq in H2. subst. auto.
+Qed.
